@@ -14,6 +14,7 @@ import LA.Proofs.ClientCmd
 import LA.Proofs.Uapi
 import LA.Gen.ClientConsts
 import LA.Gen.ClientFacts
+import LA.Proofs.StateFacts
 
 namespace LA.Client
 open LA.Netlink LA.Spec
@@ -301,3 +302,9 @@ theorem C16_from_wire_by_length :
   decide +kernel
 
 end LA.Client
+
+/-! ### the code keeps nothing between calls that the model does not have -/
+
+/-- Outside `init`, no function of the root package writes a package-level variable, takes the address of one or calls a
+sync/atomic method on one (regenerated list, see LA.Proofs.StateFacts): all state is in the object the model is given. -/
+theorem C16_state_is_in_the_object : LA.StateFacts.ofPkg "" = [] := by decide
